@@ -1,5 +1,5 @@
 """Role queries for the debugger (private anchors are found by what they do, §2.2)."""
-from .facts import callee_of, short, const_int
+from .facts import expr_walk, expr_str, callee_of, short, const_int
 from . import kit
 
 COMMAND_ADT = "lace::debugger::command::Command"
@@ -104,4 +104,55 @@ def quit_dodges(disp, arms):
     leaving = {b for b in region if any(x not in region for x in sm[b]) or disp.term(b)["k"] == "return"}
     dodge = (disp.reachable(arms["Quit"], avoid=stop_b) & leaving) - stop_b
     return dodge, stop_b
+
+
+def run_loop_skips(ctx, rl):
+    """After the debugger answered Proceed, which branches of the run loop can still skip `execute` for this cycle?
+    Returns (proceed_target, execute_block, [(switch_bb, kind, cond_expr, skip_succs, go_succs)]) with kind in
+    {'bounds', 'halt', None}: 'bounds' = check_pc_bounds() compared with Equal, 'halt' = the word at the PC classified as HALT
+    by SignificantInstr::try_from. Helpers and named temporaries are looked through (the condition is fully expanded)."""
+    prog = ctx.prog
+    EXEC = "lace::runtime::RunState::execute"
+    act = list(kit.discr_switches(rl, "lace::debugger::Action"))
+    ctx.need(act, "match on Action in the run loop")
+    ab, aplace, atargets, aoth = act[0]
+    avidx = {v["name"]: v["idx"] for v in prog.adt("lace::debugger::Action")["variants"]}
+    ctx.need(avidx.get("Proceed") in atargets, "Proceed arm in the run loop")
+    pt = atargets[avidx["Proceed"]]
+    exs = [b for b, t, c in rl.calls() if c == EXEC]
+    ctx.need(len(exs) == 1, "one execute site in the run loop")
+    heads = {h for h, (body, latches) in kit.loops(rl).items() if exs[0] in body}
+
+    def promoted_variants(e):
+        out = []
+        for x in expr_walk(e):
+            if x[0] == "uneval" and len(x) > 2:
+                pf = prog.fns.get("%s::promoted[%s]" % (x[1], x[2]))
+                if pf is not None:
+                    out += [s_["r"].get("variant") for b_, i_, s_ in pf.assigns() if s_["r"]["k"] == "agg" and s_["r"].get("variant")]
+            if x[0] == "agg" and x[1][0] == "adt":
+                out.append(x[1][2])
+        return out
+    res = []
+    sm = rl.succ_map()
+    for bb in sorted(kit.dominated_region(rl, pt)):
+        t = rl.term(bb)
+        if t["k"] != "switch":
+            continue
+        reach = {x: exs[0] in rl.reachable(x, avoid=heads) for x in sm[bb]}
+        if all(reach.values()) or not any(reach.values()):
+            continue
+        e = rl.expr(t["a"], 12)
+        calls_ = [str(x[1]) for x in expr_walk(e) if x[0] == "call"]
+        pv = promoted_variants(e)
+        txt = expr_str(e, 3000)
+        kind = None
+        if any(c == "lace::runtime::RunState::check_pc_bounds" for c in calls_) and "Equal" in pv and \
+                not any("SignificantInstr" in c for c in calls_):
+            kind = "bounds"
+        elif any("SignificantInstr" in c and c.endswith("try_from") for c in calls_) and "Halt" in pv and "pc" in txt and "mem" in txt \
+                and not any(c == "lace::runtime::RunState::check_pc_bounds" for c in calls_):
+            kind = "halt"
+        res.append((bb, kind, e, [x for x, r in reach.items() if not r], [x for x, r in reach.items() if r]))
+    return pt, exs[0], res
 
